@@ -185,6 +185,10 @@ class StmtMixin:
         def got(s2, cur):
             def got_r(s3, r):
                 # in-place list extension keeps identity
+                if isinstance(s.op, ast.Add) and isinstance(cur, VList) and isinstance(r, VTuple):
+                    add = [seq_unit(self.comp1(self.coerce(s3, x, cur.elem), cur.elem)) for x in r.items]
+                    s4 = self.set_seq_items(s3, cur, seq_concat(self.seq_items(s3, cur), *add)) if add else s3
+                    return [Out("ok", s4)]
                 if isinstance(s.op, ast.Add) and isinstance(cur, VList) and isinstance(r, (VList, VSeq)):
                     tb, _ = self.as_seq(s3, r)
                     s4 = self.set_seq_items(s3, cur, seq_concat(self.seq_items(s3, cur), tb))
